@@ -17,11 +17,7 @@ func bannedLookupGen(info *types.Info, cf *cfgx.Func, field *types.Var, keyOK fu
 		if fa.Truth {
 			return false
 		}
-		id, ok := ast.Unparen(fa.Expr).(*ast.Ident)
-		if !ok {
-			return false
-		}
-		m, k, found := mapLookupOf(info, cf, id)
+		m, k, found := mapLookupOf(info, cf, fa.Expr)
 		if !found || !fieldSel(info, m, field) {
 			return false
 		}
